@@ -9,7 +9,7 @@ use crate::render;
 use crate::rng::Rng;
 use crate::stream::Oh;
 use chrono::offset::LocalResult;
-use chrono::{DateTime, Duration, NaiveDate, NaiveDateTime, Offset, TimeZone, Timelike, Utc};
+use chrono::{DateTime, Datelike, Duration, NaiveDate, NaiveDateTime, Offset, TimeZone, Timelike, Utc};
 use chrono_tz::Tz;
 use opening_hours::localization::TzLocation;
 use opening_hours::verif_hooks as hooks;
@@ -257,6 +257,63 @@ pub fn run(args: &Args, rep: &mut Report) {
     let n = args.cases(120_000, 1_200_000);
     let mut cache = HashMap::new();
     let mut st = MapStats::default();
+    // Exhaustive part: every zone of the database x every offset transition in a span of years
+    // (zones sharded over the workers), spans placed in and around the gap / fold.
+    if !args.extra.iter().any(|e| e == "nosweep") {
+        let (y0, y1) = if args.thorough() { (1900, 2100) } else { (1985, 2037) };
+        let of = args.of.max(1) as usize;
+        'sweep: for (zi, tz) in chrono_tz::TZ_VARIANTS.iter().enumerate() {
+            if zi % of != args.worker as usize {
+                continue;
+            }
+            let tz = *tz;
+            let mut any = false;
+            for year in y0..=y1 {
+                let trs = transitions(tz, year, &mut cache);
+                for tr in trs.iter().filter(|t| t.0.date().year() == year) {
+                    any = true;
+                    rep.count("sweep_transitions");
+                    for j in 0..2u64 {
+                        let mut r = Rng::new(args.seed ^ 0x5eed, zi as u64, (year as u64) * 64 + j + (tr.0.and_utc().timestamp() as u64 % 32) * 2);
+                        let mut rule = transition_rule(&mut r, tz, tr);
+                        rule.operator = RuleOperator::Normal; // a first rule cannot be written as additional
+                        let ast = OpeningHoursExpression { rules: vec![rule] };
+                        if !denotable(&ast) {
+                            rep.count("sweep_skipped_not_denotable");
+                            continue;
+                        }
+                        let delta = *r.pick(&[-7200i64, -3601, -3600, -1800, -61, -60, -1, 0, 1, 59, 60, 1799, 1800, 3599, 3600, 7200]);
+                        let i_utc = tr.0 + Duration::seconds(delta);
+                        let text = render::plain(&ast);
+                        let hol = HolSpec::None;
+                        let Some((naive_oh, tz_oh)) = build_both(&text, &hol, tz) else {
+                            rep.count("sweep_skipped_not_parsed");
+                            continue;
+                        };
+                        let span = Duration::minutes(*r.pick(&[90i64, 1440, 2880, 4000]));
+                        rep.evaluations += 1;
+                        rep.begin(&format!("sweep {text} | {tz} | {i_utc}"));
+                        match check(&naive_oh, &tz_oh, tz, i_utc, &[], span, &mut st) {
+                            Ok(()) => {
+                                rep.count("sweep_checks_passed");
+                                rep.nontrivial(crate::rng::hash64(&format!("{ast:?}|{tz}|{i_utc}")));
+                            }
+                            Err(msg) => {
+                                report_failure(args, rep, &ast, &hol, tz, i_utc, &[], span, &msg);
+                                if rep.full() {
+                                    break 'sweep;
+                                }
+                            }
+                        }
+                    }
+                }
+            }
+            rep.count("sweep_zones");
+            if any {
+                rep.count("sweep_zones_with_transitions");
+            }
+        }
+    }
     for k in 0..n {
         let mut cfg = GenCfg::standard(args.thorough()).rotated(k);
         cfg.max_rules = 3;
